@@ -72,6 +72,18 @@ def gen_case(rng, reentrant=False):
         if reentrant and k < 0.3:
             ops.append("N:%x:%x:%x:%x" % (a_as, _addr(rng, rng.choice(regs), 1), rng.choice(spaces),
                                           _addr(rng, rng.choice(regs), 1)))
+        elif k < 0.12:
+            # failure segment: a region whose fill fails is asked for again (same address and
+            # another address of the region): the callback must be called again each time
+            f = (rng.choice([0x5000, 0x25000, 0x15000, 0x8300, 0x18b00]) +
+                 rng.choice([0, 0, 0x10000, 1 << 31, 1 << 32, 1 << 63])) & MAX
+            first = _op(rng, a_as, f, "GR", edge=False)
+            ops.append(first)
+            others = [b for b in regs if b != f]
+            for b in rng.sample(others, min(len(others), rng.randint(0, 2))):
+                ops.append(_op(rng, rng.choice(spaces), b, "GR", edge=False))
+            ops.append(first if rng.random() < 0.6 else _op(rng, a_as, f, "GR", edge=False))
+            ops.append(_op(rng, a_as, f, "GRB", edge=False))
         elif collide and k < 0.55:
             # collision segment: x stays cached while its look-alike y is asked for
             x = rng.choice([b for b in regs if region(b)] or [0x1000])
@@ -115,8 +127,23 @@ def has_pair(case):
     return False
 
 
+def has_refail(case):
+    """a region whose fill fails is requested at least twice"""
+    seen = set()
+    for t in case.split():
+        f = t.split(":")
+        if f[0] in "GR":
+            a = int(f[2], 16)
+            if region(a) is None:
+                key = (f[1], a // 0x100 if (a // 0x8000) % 2 else a // 0x1000)
+                if key in seen:
+                    return True
+                seen.add(key)
+    return False
+
+
 def nontrivial(case, impl_out):
-    return has_pair(case) or impl_out.count(" ") >= 5
+    return has_pair(case) or has_refail(case) or impl_out.count(" ") >= 5
 
 
 def spec_line(case, impl_out):
@@ -160,7 +187,8 @@ def _main():
         dis = [i for i in range(n) if model[i] != impl[i]]
         bad = [i for i in range(n) if spec[i] != "ok"]
         nops = sum(len(c.split()) for c in cases)
-        print("  cases with a look-alike pair: %d of %d" % (sum(1 for c in cases if has_pair(c)), n))
+        print("  cases with a look-alike pair: %d, with a repeated failing region: %d of %d"
+              % (sum(1 for c in cases if has_pair(c)), sum(1 for c in cases if has_refail(c)), n))
         print("%s histories: %d cases, %d ops, %d distinct; model = implementation on %d; "
               "crashes %d; judged by the cache-less spec: %d ok, %d not"
               % ("re-entrant" if reentrant else "non-re-entrant", n, nops, len(set(cases)),
